@@ -9,7 +9,7 @@ from vt.mon import contracts
 PROP = 'C11'
 TITLE = 'Turing machine simulation'
 SHARDS = {'quick': 8, 'thorough': 32}
-TIMEOUT = {'quick': 600, 'thorough': 3000}
+TIMEOUT = {'quick': 420, 'thorough': 3000}
 REQUIRED = ['tm_accepts_word', 'tm_simulate_word', 'verdict_monotone']
 EXHAUSTIVE_NOTE = 'all one-working-state machines over Gamma={a,_} (every partial transition table) with all words <=2 and all listed budgets'
 RULE = ('cases are deterministic TMs: a completely enumerated family of one-working-state machines, seeded random machines with <=4 working states, '
